@@ -139,6 +139,14 @@ def scen_locks():
         bad.append('accesses to the shared object and whether the wrapper lock was held: %r' % (seen,))
     if lock._semlock._is_mine() or lock._semlock._count() != 0:
         bad.append('the wrapper lock is still held after the accessors returned')
+    for what, obj in (('Value i', SC.RawValue('i')), ("Array i", SC.RawArray('i', 3)), ("Array c", SC.RawArray('c', 4)),
+                      ("Array c (bytes)", SC.RawArray('c', b'hello'))):
+        wrapped = SC.synchronized(obj, lock)
+        if wrapped.get_lock() is not lock:
+            bad.append('synchronized(%s, lock=L): the wrapper uses another lock than L -- two processes that hold "the" lock '
+                       'of this object no longer exclude each other' % what)
+        if wrapped.get_obj() is not obj:
+            bad.append('synchronized(%s): wraps another object' % what)
     w = SC.Value('d', 1.5)
     if w.get_lock() is None or w.acquire != w.get_lock().acquire or w.release != w.get_lock().release:
         bad.append('Value without a lock: acquire/release are not bound to get_lock()')
